@@ -9,20 +9,65 @@ use super::*;
 
 const IN: usize = 16;
 
+/// Well-formed UTF-8 (Unicode 15 table 3-7), written out: the specification side of "every text field
+/// is well-formed UTF-8" (cheaper for CBMC than a second run of core::str::from_utf8).
+fn spec_utf8_valid(b: &[u8]) -> bool {
+    let mut i = 0;
+    while i < b.len() {
+        let c = b[i];
+        let n = if c < 0x80 {
+            1
+        } else if c >= 0xC2 && c <= 0xDF {
+            2
+        } else if c >= 0xE0 && c <= 0xEF {
+            3
+        } else if c >= 0xF0 && c <= 0xF4 {
+            4
+        } else {
+            return false;
+        };
+        if i + n > b.len() {
+            return false;
+        }
+        if n >= 2 {
+            let (lo, hi) = match c {
+                0xE0 => (0xA0, 0xBF),
+                0xED => (0x80, 0x9F),
+                0xF0 => (0x90, 0xBF),
+                0xF4 => (0x80, 0x8F),
+                _ => (0x80, 0xBF),
+            };
+            if b[i + 1] < lo || b[i + 1] > hi {
+                return false;
+            }
+        }
+        let mut k = 2;
+        while k < n {
+            if b[i + k] & 0xC0 != 0x80 {
+                return false;
+            }
+            k += 1;
+        }
+        i += n;
+    }
+    true
+}
+
 fn any_input(buf: &[u8; IN]) -> &[u8] {
     let n: usize = kani::any();
     kani::assume(n <= IN);
     &buf[..n]
 }
 
-fn str_case<const N: usize>() {
-    let buf: [u8; IN] = kani::any();
-    let mut u = Unstructured::new(any_input(&buf));
+/// input of concrete length LEN (8 bytes feed the length, the rest is text), fully symbolic content
+fn str_case<const N: usize, const LEN: usize>() {
+    let buf: [u8; LEN] = kani::any();
+    let mut u = Unstructured::new(&buf);
     match arbitrary_str::<N>(&mut u) {
         Ok(s) => {
             assert!(s.len() <= N, "C19: text field beyond its capacity");
             assert!(
-                core::str::from_utf8(s.as_bytes()).is_ok(),
+                spec_utf8_valid(s.as_bytes()),
                 "C19: text field is not well-formed UTF-8"
             );
             kani::cover!(s.len() == N);
@@ -38,13 +83,23 @@ fn str_case<const N: usize>() {
 #[kani::proof]
 #[kani::unwind(18)]
 pub fn c19_k_arbitrary_str_4() {
-    str_case::<4>();
+    // 8 length bytes + 4 text bytes: every 4-byte text incl. ill-formed and cut multi-byte sequences, every declared length
+    str_case::<4, 12>();
+}
+
+#[kani::proof]
+#[kani::unwind(18)]
+pub fn c19_k_arbitrary_str_4_short_input() {
+    // fewer text bytes than the declared length may ask for, and no text at all
+    str_case::<4, 10>();
+    str_case::<4, 8>();
+    str_case::<4, 3>();
 }
 
 #[kani::proof]
 #[kani::unwind(18)]
 pub fn c19_k_arbitrary_str_64() {
-    str_case::<64>();
+    str_case::<64, 14>();
 }
 
 fn bytes_case<const N: usize>() {
